@@ -27,87 +27,87 @@ theorem Suf.length {toks r : List Tok} (h : Suf toks r) : r.length ≤ toks.leng
   simp
 
 /-- what the parsing functions guarantee on `toks` -/
-def Good {α : Type} (toks : List Tok) : PRes (α × List Tok) → Prop
+def PGood {α : Type} (toks : List Tok) : PRes (α × List Tok) → Prop
   | .ok (_, r) => Suf toks r
   | .error (_, .syntax) => True
   | .error (_, .eof) => Tok.bad ∉ toks
   | .error (_, .fuel) => False
 
-theorem Good.lift {α : Type} {toks r : List Tok} {x : PRes (α × List Tok)} (hs : Suf toks r) (h : Good r x) :
-    Good toks x := by
+theorem PGood.lift {α : Type} {toks r : List Tok} {x : PRes (α × List Tok)} (hs : Suf toks r) (h : PGood r x) :
+    PGood toks x := by
   match x, h with
   | .ok (_, r'), h => exact hs.trans h
   | .error (_, .syntax), _ => trivial
   | .error (_, .eof), h =>
     obtain ⟨p, rfl, n⟩ := hs
-    simp only [Good, List.mem_append, not_or] at h ⊢
+    simp only [PGood, List.mem_append, not_or] at h ⊢
     exact ⟨n, h⟩
 
 theorem good_errAt {α : Type} {toks r : List Tok} (h : Suf toks r) (fr : List Ast) :
-    Good (α := α) toks (errAt fr r) := by
+    PGood (α := α) toks (errAt fr r) := by
   cases r with
   | nil =>
     obtain ⟨p, rfl, n⟩ := h
-    simpa [errAt, Good] using n
-  | cons t r => simp [errAt, Good]
+    simpa [errAt, PGood] using n
+  | cons t r => simp [errAt, PGood]
 
 theorem good_atomDone {toks r : List Tok} (h : Suf toks r) (a : Ast) (fr : List Ast) :
-    Good toks (atomDone a fr r) := by
+    PGood toks (atomDone a fr r) := by
   unfold atomDone
   split
   · exact h
   · exact good_errAt h fr
 
 theorem good_bindF {α β : Type} {toks : List Tok} (pre : List Ast) {x : PRes (α × List Tok)}
-    {k : α × List Tok → PRes (β × List Tok)} (hx : Good toks x)
-    (hk : ∀ a r, Suf toks r → Good toks (k (a, r))) : Good toks (PRes.bindF pre x k) := by
+    {k : α × List Tok → PRes (β × List Tok)} (hx : PGood toks x)
+    (hk : ∀ a r, Suf toks r → PGood toks (k (a, r))) : PGood toks (PRes.bindF pre x k) := by
   match x, hx with
   | .ok (a, r), h => exact hk a r h
   | .error (_, .syntax), _ => trivial
   | .error (_, .eof), h => exact h
 
-theorem good_closeParen {toks r : List Tok} (h : Suf toks r) (e : Ast) : Good toks (closeParen e r) := by
+theorem good_closeParen {toks r : List Tok} (h : Suf toks r) (e : Ast) : PGood toks (closeParen e r) := by
   unfold closeParen
   split
   · exact good_atomDone (h.step (by simp)) _ _
   · exact good_errAt h _
 
-theorem good_closeIte {toks r : List Tok} (h : Suf toks r) (a b c : Ast) : Good toks (closeIte a b c r) := by
+theorem good_closeIte {toks r : List Tok} (h : Suf toks r) (a b c : Ast) : PGood toks (closeIte a b c r) := by
   unfold closeIte
   split
   · exact good_atomDone (h.step (by simp)) _ _
   · exact good_errAt h _
 
 theorem good_expectComma {toks r : List Tok} (h : Suf toks r) (done : List Ast)
-    (k : List Tok → PRes (Ast × List Tok)) (hk : ∀ r', Suf toks r' → Good toks (k r')) :
-    Good toks (expectComma done k r) := by
+    (k : List Tok → PRes (Ast × List Tok)) (hk : ∀ r', Suf toks r' → PGood toks (k r')) :
+    PGood toks (expectComma done k r) := by
   unfold expectComma
   split
   · exact hk _ (h.step (by simp))
   · exact good_errAt h _
 
-theorem good_parseNames : ∀ toks : List Tok, Good toks (parseNames toks) := by
+theorem good_parseNames : ∀ toks : List Tok, PGood toks (parseNames toks) := by
   intro toks
   fun_induction parseNames toks with
   | case1 x rest xs r hr ih =>
     rw [hr] at ih
-    exact Good.lift (((Suf.refl _).step (by simp)).step (by simp)) ih
+    exact PGood.lift (((Suf.refl _).step (by simp)).step (by simp)) ih
   | case2 x rest e hr ih =>
     rw [hr] at ih
-    exact Good.lift (((Suf.refl _).step (by simp)).step (by simp)) ih
+    exact PGood.lift (((Suf.refl _).step (by simp)).step (by simp)) ih
   | case3 x rest => exact ((Suf.refl _).step (by simp)).step (by simp)
   | case4 x rest _ _ => exact good_errAt ((Suf.refl _).step (by simp)) _
   | case5 toks _ => exact good_errAt (Suf.refl _) _
 
-theorem good_parseSubs : ∀ toks : List Tok, Good toks (parseSubs toks) := by
+theorem good_parseSubs : ∀ toks : List Tok, PGood toks (parseSubs toks) := by
   intro toks
   fun_induction parseSubs toks with
   | case1 new old rest xs r hr ih =>
     rw [hr] at ih
-    exact Good.lift (((((Suf.refl _).step (by simp)).step (by simp)).step (by simp)).step (by simp)) ih
+    exact PGood.lift (((((Suf.refl _).step (by simp)).step (by simp)).step (by simp)).step (by simp)) ih
   | case2 new old rest e hr ih =>
     rw [hr] at ih
-    exact Good.lift (((((Suf.refl _).step (by simp)).step (by simp)).step (by simp)).step (by simp)) ih
+    exact PGood.lift (((((Suf.refl _).step (by simp)).step (by simp)).step (by simp)).step (by simp)) ih
   | case3 new old rest => exact ((((Suf.refl _).step (by simp)).step (by simp)).step (by simp)).step (by simp)
   | case4 => exact good_errAt ((((Suf.refl _).step (by simp)).step (by simp)).step (by simp)) _
   | case5 => exact good_errAt (((Suf.refl _).step (by simp)).step (by simp)) _
@@ -117,17 +117,17 @@ theorem good_parseSubs : ∀ toks : List Tok, Good toks (parseSubs toks) := by
 
 /-! ### induction on the fuel -/
 
-theorem good_prefix (f : Nat) (ih : ∀ toks : List Tok, toks.length < f → ∀ p, Good toks (parseExpr f p toks))
-    (toks : List Tok) (hl : toks.length < f + 1) : Good toks (parsePrefix (f+1) toks) := by
+theorem good_prefix (f : Nat) (ih : ∀ toks : List Tok, toks.length < f → ∀ p, PGood toks (parseExpr f p toks))
+    (toks : List Tok) (hl : toks.length < f + 1) : PGood toks (parsePrefix (f+1) toks) := by
   -- recursive calls on what is left of `base`, a proper suffix of `toks`
-  have sub : ∀ {base r : List Tok}, base.length < f → Suf base r → ∀ p, Good base (parseExpr f p r) :=
-    fun hb hs p => Good.lift hs (ih _ (by have := hs.length; omega) p)
+  have sub : ∀ {base r : List Tok}, base.length < f → Suf base r → ∀ p, PGood base (parseExpr f p r) :=
+    fun hb hs p => PGood.lift hs (ih _ (by have := hs.length; omega) p)
   cases toks with
   | nil => simpa [parsePrefix] using good_errAt (α := Ast) (Suf.refl []) []
   | cons t rest =>
     have hr : rest.length < f := by simp at hl; omega
     have other : ∀ t', t' ≠ Tok.bad → parsePrefix (f+1) (t' :: rest) = errAt [] (t' :: rest) →
-        Good (t' :: rest) (parsePrefix (f+1) (t' :: rest)) := by
+        PGood (t' :: rest) (parsePrefix (f+1) (t' :: rest)) := by
       intro t' _ e; rw [e]; exact good_errAt (Suf.refl _) _
     cases t with
     | tt => rw [prefix_tt]; exact good_atomDone (Suf.cons _ (by simp)) _ _
@@ -135,25 +135,25 @@ theorem good_prefix (f : Nat) (ih : ∀ toks : List Tok, toks.length < f → ∀
     | name x => rw [prefix_name]; exact good_atomDone (Suf.cons _ (by simp)) _ _
     | not =>
       rw [prefix_not]
-      apply Good.lift (Suf.cons rest (by simp))
+      apply PGood.lift (Suf.cons rest (by simp))
       exact good_bindF [] (sub hr (Suf.refl _) _) (fun a r hs => hs)
     | lparen =>
       rw [prefix_lparen]
-      apply Good.lift (Suf.cons rest (by simp))
+      apply PGood.lift (Suf.cons rest (by simp))
       exact good_bindF [] (sub hr (Suf.refl _) _) (fun a r hs => good_closeParen hs _)
     | forall_ =>
       rw [prefix_forall]
-      apply Good.lift (Suf.cons rest (by simp))
+      apply PGood.lift (Suf.cons rest (by simp))
       refine good_bindF [] (good_parseNames rest) (fun ns r hs => ?_)
       exact good_bindF [] (sub hr hs _) (fun a r hs' => hs')
     | exists_ =>
       rw [prefix_exists]
-      apply Good.lift (Suf.cons rest (by simp))
+      apply PGood.lift (Suf.cons rest (by simp))
       refine good_bindF [] (good_parseNames rest) (fun ns r hs => ?_)
       exact good_bindF [] (sub hr hs _) (fun a r hs' => hs')
     | rename =>
       rw [prefix_rename]
-      apply Good.lift (Suf.cons rest (by simp))
+      apply PGood.lift (Suf.cons rest (by simp))
       refine good_bindF [] (good_parseSubs rest) (fun ns r hs => ?_)
       exact good_bindF [] (sub hr hs _) (fun a r hs' => hs')
     | ite =>
@@ -164,7 +164,7 @@ theorem good_prefix (f : Nat) (ih : ∀ toks : List Tok, toks.length < f → ∀
         by_cases ht2 : t2 = .lparen
         · subst ht2
           rw [prefix_ite]
-          apply Good.lift ((Suf.refl (Tok.ite :: Tok.lparen :: rest2)).step (by simp) |>.step (by simp))
+          apply PGood.lift ((Suf.refl (Tok.ite :: Tok.lparen :: rest2)).step (by simp) |>.step (by simp))
           refine good_bindF [] (sub hr2 (Suf.refl _) _) (fun a r1 hs1 => ?_)
           refine good_expectComma hs1 _ _ (fun r1' hs1' => ?_)
           refine good_bindF _ (sub hr2 hs1' _) (fun b r2 hs2 => ?_)
@@ -204,15 +204,15 @@ theorem good_prefix (f : Nat) (ih : ∀ toks : List Tok, toks.length < f → ∀
         | _ =>
           simp only [parsePrefix]
           exact good_errAt (Suf.cons _ (by simp)) _
-    | bad => simp only [parsePrefix]; simp [errAt, Good]
+    | bad => simp only [parsePrefix]; simp [errAt, PGood]
     | _ => exact other _ (by simp) (by simp [parsePrefix])
 
-theorem good_loop (f : Nat) (ihE : ∀ toks : List Tok, toks.length < f → ∀ p, Good toks (parseExpr f p toks))
-    (ihL : ∀ toks : List Tok, toks.length < f → ∀ p lhs, Good toks (parseLoop f p lhs toks))
+theorem good_loop (f : Nat) (ihE : ∀ toks : List Tok, toks.length < f → ∀ p, PGood toks (parseExpr f p toks))
+    (ihL : ∀ toks : List Tok, toks.length < f → ∀ p lhs, PGood toks (parseLoop f p lhs toks))
     (toks : List Tok) (hl : toks.length < f + 1) (p : Nat) (lhs : Ast) :
-    Good toks (parseLoop (f+1) p lhs toks) := by
+    PGood toks (parseLoop (f+1) p lhs toks) := by
   have stop : ∀ {toks : List Tok}, parseLoop (f+1) p lhs toks = .ok (lhs, toks) →
-      Good toks (parseLoop (f+1) p lhs toks) := by
+      PGood toks (parseLoop (f+1) p lhs toks) := by
     intro toks e; rw [e]; exact Suf.refl _
   cases toks with
   | nil => exact stop (by simp [parseLoop])
@@ -222,28 +222,28 @@ theorem good_loop (f : Nat) (ihE : ∀ toks : List Tok, toks.length < f → ∀ 
       rw [loop_op]
       split
       · have hr : rest.length < f := by simp at hl; omega
-        apply Good.lift (Suf.cons rest (by simp))
+        apply PGood.lift (Suf.cons rest (by simp))
         refine good_bindF _ (ihE rest hr _) (fun a r hs => ?_)
-        exact Good.lift hs (ihL r (by have := hs.length; omega) _ _)
+        exact PGood.lift hs (ihL r (by have := hs.length; omega) _ _)
       · exact Suf.refl _
     | _ => exact stop (by simp [parseLoop])
 
 theorem good_all : ∀ (f : Nat) (toks : List Tok), toks.length < f →
-    (∀ p, Good toks (parseExpr f p toks)) ∧ Good toks (parsePrefix f toks) ∧
-    (∀ p lhs, Good toks (parseLoop f p lhs toks)) := by
+    (∀ p, PGood toks (parseExpr f p toks)) ∧ PGood toks (parsePrefix f toks) ∧
+    (∀ p lhs, PGood toks (parseLoop f p lhs toks)) := by
   intro f
   induction f with
   | zero => intro toks h; omega
   | succ f ih =>
-    have hP : ∀ toks : List Tok, toks.length < f + 1 → Good toks (parsePrefix (f+1) toks) :=
+    have hP : ∀ toks : List Tok, toks.length < f + 1 → PGood toks (parsePrefix (f+1) toks) :=
       fun toks hl => good_prefix f (fun t ht p => (ih t ht).1 p) toks hl
-    have hL : ∀ toks : List Tok, toks.length < f + 1 → ∀ p lhs, Good toks (parseLoop (f+1) p lhs toks) :=
+    have hL : ∀ toks : List Tok, toks.length < f + 1 → ∀ p lhs, PGood toks (parseLoop (f+1) p lhs toks) :=
       fun toks hl p lhs => good_loop f (fun t ht p => (ih t ht).1 p) (fun t ht p l => (ih t ht).2.2 p l) toks hl p lhs
     intro toks hl
     refine ⟨fun p => ?_, hP toks hl, hL toks hl⟩
     rw [parseExpr_eq]
     refine good_bindF [] (hP toks hl) (fun a r hs => ?_)
-    exact Good.lift hs (hL r (by have := hs.length; omega) _ _)
+    exact PGood.lift hs (hL r (by have := hs.length; omega) _ _)
 
 /-- the parser never runs out of fuel; an illegal character gives the syntax error -/
 theorem parseE_bad (toks : List Tok) :
